@@ -1,4 +1,5 @@
 import PynguinModel.Lemmas.Cdg
+import PynguinModel.Lemmas.CdgDeps
 /-!
 # C06 — Control-dependence graphs match the post-dominance definition
 
@@ -10,6 +11,12 @@ insertions `compute` performs are exactly Ferrante–Ottenstein–Warren's set
 The hypotheses on the tree are *checked on every real CFG* by the driver using the certificate
 checkers below, whose soundness (`checkClosed_sound`, `checkAvoidingPath_sound`, `decidePdom_sound`)
 is proved here — so no unverified graph search is trusted for the oracle.
+
+The two query functions of the finished graph are covered as well: `control_dependencies_exact`
+(`get_control_dependencies` reports exactly the (branch, outcome) pairs reachable backwards over pass
+edges — both outcomes of one branch included), `root_dependence_sound` / `root_dependence_exact` /
+`root_dependence_of_no_branch` (`is_control_dependent_on_root`), and `self_loop_dependence` (a loop
+that is a single basic block depends on itself).
 -/
 namespace PynguinModel.Cdg
 
@@ -311,5 +318,109 @@ theorem treeOKb_sound {tbl : List (Node × List Node)} (h : treeOKb tbl = true) 
     rw [hv] at this
     simpa using this
   · cases hv
+
+end PynguinModel.Cdg
+
+namespace PynguinModel.Cdg
+
+/-! ### Loops that consist of one basic block -/
+
+/-- A CFG edge from a block to itself (`while True: f()`: head and body are one block) always yields
+the self dependence `A → A` with the label of that edge: the ancestor filter of `compute` is *strict*
+(`target ∉ ancestors(source)`), so a self loop is never filtered out. -/
+theorem self_loop_dependence {up} (h : TreeOK up) (E : List Edge) (a : Node) (l : Label)
+    (he : (⟨a, a, l⟩ : Edge) ∈ E) : (a, a, l) ∈ cdgAlgo E up :=
+  (mem_cdgAlgo_iff h E a a l).2 ⟨a, he, by simp [chain], not_mem_up_self h a⟩
+
+/-- …and it survives in the stored graph (the node is neither ENTRY nor EXIT). -/
+theorem self_loop_dependence_stored {up} (h : TreeOK up) (E : List Edge) (entry exit a : Node) (l : Label)
+    (hc : LabelConsistent (cdgAlgo E up)) (he : (⟨a, a, l⟩ : Edge) ∈ E) (h1 : a ≠ entry) (h2 : a ≠ exit) :
+    (a, a, l) ∈ cdgImpl E up entry exit :=
+  (cdgImpl_mem_iff E up entry exit hc a a l).2 ⟨self_loop_dependence h E a l he, h1, h2, h1, h2⟩
+
+/-- The infinite loop `ENTRY(0) → A(3) → A`, with the artificial edge `A → EXIT(1)` pynguin adds for a
+loop without exit and the augmented entry `2`: `A` depends on the root and on itself. -/
+example : cdgImpl [⟨3, 3, none⟩, ⟨3, 1, none⟩, ⟨0, 3, none⟩, ⟨2, 0, none⟩, ⟨2, 1, none⟩]
+    (fun v => if v = 1 then [] else if v = 0 then [3, 1] else [1]) 0 1 = [(3, 3, none), (2, 3, none)] := by
+  decide
+
+/-! ### `get_control_dependencies` -/
+
+/-- **The dependencies reported for a node are exactly the (branch, outcome) pairs the CDG defines**:
+`(A, v)` is reported for `n` iff walking CDG edges backwards from `n`, through edges that are not
+labelled edges out of a basic block (root, try-begin and yield blocks fork without a branch value),
+meets the edge `A →v ·` out of the basic block `A`.  In particular a node that hangs on *both*
+outcomes of one branch gets both pairs: the `handled` set of the walk is keyed by edge, not by node.
+Holds for every graph with one label per (source, target) pair. -/
+theorem control_dependencies_exact {g : CG} {isBlock : Node → Bool} (hg : LabelConsistent g)
+    (n : Node) (d : Node × Bool) : d ∈ controlDeps g isBlock n ↔ DepReach g isBlock n d :=
+  ⟨controlDeps_sound, controlDeps_complete hg⟩
+
+/-- The stored CDG always has one label per pair (`nx.DiGraph`), so no hypothesis is left. -/
+theorem control_dependencies_exact_stored (E : List Edge) (up : Node → List Node) (entry exit : Node)
+    (isBlock : Node → Bool) (n : Node) (d : Node × Bool) :
+    d ∈ controlDeps (cdgImpl E up entry exit) isBlock n ↔ DepReach (cdgImpl E up entry exit) isBlock n d :=
+  control_dependencies_exact (labelConsistent_cdgImpl E up entry exit) n d
+
+/-- The generator `for k in it: if k: yield k` as a CDG (`2` root, `3` loop head, `4` the `if`,
+`5` the block before the `yield`, which forks without a branch value): the loop head depends on the
+`if` being False (directly) *and* True (through block 5). -/
+private def yE : CG := [(2, 3, none), (3, 4, some true), (4, 3, some false), (4, 5, some true), (5, 3, none),
+  (3, 3, some true)]
+example : controlDeps yE (fun n => decide (3 ≤ n)) 3 = [(4, false), (4, true), (3, true)] := by decide
+example : DepReach yE (fun n => decide (3 ≤ n)) 3 (4, true) :=
+  .through (p := 5) (l := none) (by decide) (Or.inr rfl) (.direct (by decide) (by decide))
+
+/-! ### `is_control_dependent_on_root` -/
+
+/-- A reported root dependence is real: an edge out of the root is reachable backwards over pass
+edges. -/
+theorem root_dependence_sound {g : CG} {isBlock : Node → Bool} {root n : Node}
+    (h : rootDep g isBlock root n = true) : RootReach g isBlock root n := rootDep_sound h
+
+/-- …and, when every node's outgoing edges are all dependencies or all pass edges (`Uniform`, the case
+for the CDG of a CFG; evaluated by the driver on every graph), every real root dependence is found. -/
+theorem root_dependence_exact {g : CG} {isBlock : Node → Bool} {root : Node} (hu : Uniform g isBlock)
+    (n : Node) : rootDep g isBlock root n = true ↔ RootReach g isBlock root n :=
+  ⟨rootDep_sound, rootDep_complete hu⟩
+
+/-- `n` is reachable from the root in the CDG. -/
+inductive CReach (g : CG) (root : Node) : Node → Prop
+  | edge {n : Node} {l : Label} : (root, n, l) ∈ g → CReach g root n
+  | step {p n : Node} {l : Label} : CReach g root p → (p, n, l) ∈ g → CReach g root n
+
+/-- **Root dependence for nodes not dependent on any branch**: a node of the CDG (reachable from its
+root) for which `get_control_dependencies` reports nothing is reported root dependent. -/
+theorem root_dependence_of_no_branch {g : CG} {isBlock : Node → Bool} {root n : Node}
+    (hg : LabelConsistent g) (hu : Uniform g isBlock) (hr : CReach g root n)
+    (hd : controlDeps g isBlock n = []) : rootDep g isBlock root n = true := by
+  apply rootDep_complete hu
+  have hnone : ∀ d, ¬ DepReach g isBlock n d := fun d h => by
+    have := controlDeps_complete hg h
+    rw [hd] at this; cases this
+  clear hd
+  induction hr with
+  | edge he => exact RootReach.direct he
+  | @step p n l _ he ih =>
+    cases hb : isBlock p with
+    | false =>
+      exact RootReach.through he (Or.inl hb) (ih fun d h => hnone d (DepReach.through he (Or.inl hb) h))
+    | true =>
+      cases l with
+      | none =>
+        exact RootReach.through he (Or.inr rfl) (ih fun d h => hnone d (DepReach.through he (Or.inr rfl) h))
+      | some b => exact absurd (DepReach.direct he hb) (hnone (p, b))
+
+/-- Without `Uniform` the search is incomplete (its `visited` set also swallows nodes first met over a
+labelled edge): node 5 hangs off the root through the pass edge `3 → 5`, but 3 was visited over `3 →T 4`.
+Only CDGs re-linked by DynaMOSA's `_create_covered_cdg` have this shape (C07 deals with it). -/
+theorem rootDep_mixed_cex :
+    rootDep [(2, 3, none), (3, 4, some true), (4, 5, none), (3, 5, none)] (fun n => decide (3 ≤ n)) 2 5 = false ∧
+    RootReach [(2, 3, none), (3, 4, some true), (4, 5, none), (3, 5, none)] (fun n => decide (3 ≤ n)) 2 5 :=
+  ⟨by decide, .through (p := 3) (l := none) (by decide) (Or.inr rfl) (.direct (l := none) (by decide))⟩
+
+example : Uniform yE (fun n => decide (3 ≤ n)) := uniformb_sound (by decide)
+example : rootDep yE (fun n => decide (3 ≤ n)) 2 3 = true ∧ rootDep yE (fun n => decide (3 ≤ n)) 2 5 = false := by
+  decide
 
 end PynguinModel.Cdg
